@@ -58,7 +58,10 @@ class IOGen:
         return f"ㄱㅇ{E(s.R.choice(idx))}" if idx else None
     def leaf(s, ctx):
         R = s.R; s.leaves += 1
-        k = R.choice(["print", "read", "ret", "printx", "retx", "act", "act", "retbad"])
+        k = R.choice(["print", "read", "ret", "printx", "retx", "act", "act", "retbad", "printnl"])
+        if k == "printnl":      # ㅈㄹ writes its string AND a line feed, whatever the string ends in: texts that contain or end in line feeds (built by decoding bytes)
+            from slices_world import st
+            return f"({st(R.choice([chr(10), 'a' + chr(10), 'a' + chr(10) + 'b', chr(13) + chr(10), 'bc' + chr(10) + chr(10), '', ' ', 'x' + chr(13)]))} ㅈㄹㅎㄴ)"
         if k == "retbad":      # ㄱㅅ evaluates its argument COMPLETELY when the action is built: a failing part deep inside a container fails there (inside the
             # bound action if that is where the ㄱㅅ stands - so a handler gets it), not later when somebody looks at the part
             x = s.ref(ctx, "val"); bad = R.choice(["(ㄴ ㄱ ㄴㄴㅎㄷ)", "(ㄴ ㄷㅂㅎㄴ ㄷㅈㅎㄴ)"] + ([f"(ㄴ ({x} ㅅㅅㅎㄴ) ㄴㄴㅎㄷ)", f"({x} ㅈㄷㅎㄴ)"] if x else []))
